@@ -45,8 +45,8 @@ SHAPES = [
 ]
 NSHAPES = len(SHAPES)
 ATOM = 1
-# reduced alphabet for arity 3 in the quick tier: var, atom, int, string, partial list, defined goal
-REDUCED = [0, 1, 3, 6, 9, 11]
+# reduced alphabet for arity 3 in the quick tier: var, atom, int, string, list, partial list, defined goal
+REDUCED = [0, 1, 3, 6, 8, 9, 11]
 # order in which an argument is simplified when a crash example is shrunk
 SIMPLER = [1, 3, 0]
 
@@ -598,7 +598,8 @@ STATEMENTS = [
     "evidence(a).", "evidence(X).", "evidence(a,maybe).", "evidence(a,true).", "evidence(a,false).",
     "evidence(\\+a).", "evidence(1).", "evidence(u).", "evidence(a,X).", "evidence(a,1).", "evidence(p(X)).",
     "evidence(a) :- b.", "evidence((a,b)).", "evidence(\\+X).", "evidence(a,b,c).", "evidence(\\+u).",
-    "evidence(q(1),false).", "evidence(true).", "evidence(fail).",
+    "evidence(q(1),false).", "evidence(true).", "evidence(fail).", "query(\\+X).", "evidence(\\+X,true).",
+    "evidence(not X).",
     # directives
     ":- foo.", ":- a.", ":- X.", ":- 1.", ":- fail.", ":- query(a).", ":- a, foo.", ":- \\+ foo.",
     ":- use_module(library(nosuchlib_c27)).", ":- consult(nosuchfile_c27).", ":- [nosuchfile_c27].",
@@ -859,6 +860,10 @@ HINTS = {
     "IndexError@clausedb.py:add_all": "a :: :- .",
     "IndexError@logic.py:to_list": "a ; ; .",
     "IndexError@parser.py:_build_clause": "; :- a .",
+    "AttributeError@parser.py:_build_clause": "( ) :- a .",
+    "AttributeError@program.py:build_probabilistic": "a :: ( ) .",
+    "ValueError@clausedb.py:_compile": "a :- ( ) .",
+    "TypeError@program.py:neg_head_literal_to_pos_literal": "a :: \\+ 1 .",
 }
 _CANON = {}
 
@@ -885,13 +890,17 @@ class C27(Prop):
                  "programs of <=2-3 statements over a grammar of ill-formed statements; all short token strings; "
                  "oracle = the run returns or raises a ProbLogError subclass")
     rule = ("(a) signatures from DefaultEngine().get_builtins() and the exports of problog/library/*; 12 argument "
-            "shapes; arity<=2 all tuples, arity 3 all tuples (thorough) or all tuples over 6 shapes (quick), "
-            "arity>=4 the all-atom call and every one-argument deviation from it; goal mode (BuiltinHarness) for "
-            "all, clause mode (`q :- call. query(q).` through default inference) for all builtins and, in quick, "
-            "library predicates of arity<=2 (thorough: all); a call is non-trivial when it did not end in "
+            "shapes; arity<=2 all tuples, arity 3 all tuples (thorough) or all tuples over 7 shapes (quick), "
+            "arity>=4 the all-atom call and every one-argument deviation from it (the 290 predicates of the "
+            "nlp4plp application library: arity<=2 only in quick); goal mode (BuiltinHarness.query on a DB with "
+            "0.4::p(a). p(b).) for all, clause mode (`q :- call. query(q).` through default inference) for all "
+            "builtins and library predicates of arity<=2 in quick, all in thorough (nlp4plp: arity<=1, thorough "
+            "only), skipped for calls whose goal mode timed out; a call is non-trivial when it did not end in "
             "UnknownClause/CallModeError/ParseError, i.e. it got past the mode check into the builtin's body; "
+            "(a2) every entry of problog.logic._arithmetic_functions x all argument tuples over "
+            "{1,-2,2.5,0,1000,\"s\",a} in `q :- Y is f(..). query(q).`; "
             "(b) all 1-2 statement programs over the ill-formed-statement grammar, 3 statements over the core "
-            "grammar (quick) or the full grammar (thorough); (b2) 0.3::a + 1-3 rules for p,r with 1-2 body "
+            "grammar (quick) or the core + 40 further statements (thorough); (b2) 0.3::a + 1-3 rules for p,r with 1-2 body "
             "literals over {a,p,r} and their negations + query(p); (c) all strings of <=4 (quick) / <=5 "
             "(thorough) tokens over 24 tokens; a program/string is non-trivial when it parses. "
             "states = distinct calls / programs / strings; violations keyed by (exception class, innermost "
@@ -906,7 +915,7 @@ class C27(Prop):
         "exports of a library = its module/2 export list, else the predicates it defines after loading; "
         "lists.py / string.py are reached through lists.pl / string.pl",
     ]
-    budget = {"quick": 150, "thorough": 1500}
+    budget = {"quick": 240, "thorough": 1800}
 
     # -- shards
     def shards(self, tier):
@@ -1007,7 +1016,7 @@ class C27(Prop):
         key = short_hash(["crash:%s@%s" % (exc, site), {"site": site, "exc": exc}])
         deadline = time.time() + 900
         shards = self.shards("quick")
-        shards.sort(key=lambda s: (s[0] != "a", s[0] == "c"))
+        shards.sort(key=lambda s: self._weight(s, "quick"))     # cheap shards first
         for sh in shards:
             acc = Acc(self.pid, deadline)
             self.run_shard(sh, "quick", acc)
